@@ -285,7 +285,10 @@ class StatementLineageHolder(SubQueryLineageHolder, ColumnLineageMixin):
         }
 
     def add_rename(self, src: Table, tgt: Table) -> None:
-        self.graph.add_edge(src, tgt, type=EdgeType.RENAME)
+        # the pairs of one RENAME statement take effect from left to right: remember their position
+        self.graph.add_edge(
+            src, tgt, type=EdgeType.RENAME, **{EdgeTag.INDEX: len(self.rename)}
+        )
 
     @staticmethod
     def of(holder: SubQueryLineageHolder) -> "StatementLineageHolder":
@@ -382,7 +385,11 @@ class SQLLineageHolder(ColumnLineageMixin):
                     if g.has_node(table) and g.degree[table] == 0:
                         g.remove_node(table)
             elif holder.rename:
-                for table_old, table_new in holder.rename:
+                # in statement order (a set has none): `rename b to c, c to d` must apply b->c before c->d
+                for table_old, table_new in sorted(
+                    holder.rename,
+                    key=lambda pair: holder.graph.edges[pair].get(EdgeTag.INDEX, 0),
+                ):
                     g = nx.relabel_nodes(g, {table_old: table_new})
                     g.remove_edge(table_new, table_new)
                     if g.degree[table_new] == 0:
